@@ -339,10 +339,9 @@ type sidInfo struct {
 	PID string `json:"pid,omitempty"`
 }
 
+// The caller holds connectedMu (see Namespace.doConnect).
 func (s *serverSocket) onConnect() error {
-	s.debug.Log("Socket connected. Locking mutex and writing packet")
-	s.connectedMu.Lock()
-	defer s.connectedMu.Unlock()
+	s.debug.Log("Socket connected. Writing packet")
 
 	// Socket ID is the default room a socket joins to.
 	s.Join(Room(s.ID()))
